@@ -93,7 +93,7 @@ class Values:
       node = rng.choice(self.shared)
     elif r < self.nested:
       leaf = gen.Leaf(Sentinel(next(self.cnt)))
-      node = gen.B('Config', rng.choice([kinds.two, kinds.Base, kinds.three]),
+      node = gen.B('Config', rng.choice([kinds.two, kinds.two, kinds.three]),
                    kw={'x' if rng.random() < 2 else 'a': leaf})
       if node.fn is kinds.three:
         node.kw = {'a': leaf}
